@@ -66,14 +66,14 @@ func (Prop) RunBatch(c *vp.Child) {
 	defer b.e.s.Close()
 	switch c.Stage {
 	case "goapi":
-		b.histories("go", c.Pick(20000, 200000)/c.NB, c.Pick(200, 400))
+		b.histories("go", c.Pick(16000, 200000)/c.NB, c.Pick(200, 400))
 	case "lua":
-		b.histories("lua", c.Pick(1600, 30000)/c.NB, c.Pick(120, 200))
+		b.histories("lua", c.Pick(1280, 30000)/c.NB, c.Pick(120, 200))
 	case "equal":
 		b.e.runEqual(c, 1)
 	case "mixed-race":
-		b.histories("go", c.Pick(1600, 16000)/c.NB, c.Pick(200, 400))
-		b.histories("lua", c.Pick(96, 800)/c.NB, 100)
+		b.histories("go", c.Pick(1280, 16000)/c.NB, c.Pick(200, 400))
+		b.histories("lua", c.Pick(80, 800)/c.NB, 100)
 		b.e.runEqual(c, c.Pick(6, 2))
 	}
 }
@@ -148,9 +148,11 @@ func (b *batch) one(kind, id string, h *History) {
 	c.Feature("meta/"+h.Meta, 1)
 	if kind == "lua" {
 		// the Lua stage has no access to the shape at its hook points; measure it on the Go side of the same history
-		if b.e.runGo(h, f) != nil {
+		f2 := newFeats()
+		if b.e.runGo(h, f2) != nil {
 			c.Feature("lua-history-go-rerun-failed", 1)
 		}
+		f.arrayGrew, f.chained, f.tomb, f.maxArray, f.maxHash = f2.arrayGrew, f2.chained, f2.tomb, f2.maxArray, f2.maxHash
 	}
 	if f.arrayGrew {
 		c.Feature("shape/array-part-grew", 1)
